@@ -107,10 +107,11 @@ C09SeizeExact(nd) == ~IsRoot(nd) => \A l \in Seized(nd) :
      /\ l.coll = v.in
      /\ Cardinality({a \in Range(Post(nd).auctions) : a.lv = l.id}) = 1
      /\ \A a \in Range(Post(nd).auctions) : a.lv = l.id => a.collLeft = v.in /\ a.debtLeft = l.target
+NewLocked(nd) == {l \in Range(Post(nd).locked) : l.id \notin LockedIds(Pre(nd))}
 C09CustodyMoves(nd) == ~IsRoot(nd) /\ AuctionIds(Pre(nd)) \subseteq AuctionIds(Post(nd)) /\ nd.a # "Bid" =>
    \A d \in CollDenoms :
       Post(nd).bal.auctionsV2[d] - Pre(nd).bal.auctionsV2[d]
-        = SumSeq(Post(nd).locked, LAMBDA l : IF l \in Seized(nd) /\ l.collD = d THEN l.coll ELSE 0)
+        = SumSeq(Post(nd).locked, LAMBDA l : IF l \in NewLocked(nd) /\ l.collD = d THEN l.coll ELSE 0)
 
 (* bounded-response ghost: consecutive blocks during which vault vid stayed open, unsafe and enabled *)
 StillBad(C, S, vid) == HasVault(S, vid) /\ Unsafe(C, S, VaultById(S, vid)) /\ Enabled(C, S, VaultById(S, vid))
@@ -134,13 +135,12 @@ BidAuction(nd) == AuctionById(Pre(nd), nd.args.v)
 BidLocked(nd) == LockedById(Pre(nd), BidAuction(nd).lv)
 Paid(nd) == Pre(nd).ubal[U(nd)][BidAuction(nd).debtD] - Post(nd).ubal[U(nd)][BidAuction(nd).debtD]
 Received(nd) == Post(nd).ubal[U(nd)][BidAuction(nd).collD] - Pre(nd).ubal[U(nd)][BidAuction(nd).collD]
-OwnBid(nd) == BidLocked(nd).owner = U(nd) \/ (BidLocked(nd).ikeeper /\ BidLocked(nd).keeper = U(nd))
+OwnBid(nd) == BidLocked(nd).owner = U(nd) \/ (BidLocked(nd).ikeeper /\ BidLocked(nd).keeper = U(nd)) \/ BidLocked(nd).ext = U(nd)
 C10PaidWithinTarget(nd) == BidOk(nd) /\ BidAuction(nd).dutch /\ ~OwnBid(nd) => Paid(nd) >= 0 /\ Paid(nd) <= BidAuction(nd).debtLeft
 C10ReceivedWithinSeized(nd) == BidOk(nd) /\ BidAuction(nd).dutch /\ ~OwnBid(nd) => Received(nd) >= 0 /\ Received(nd) <= BidAuction(nd).collLeft
 C10PostedPrice(nd) == BidOk(nd) /\ BidAuction(nd).dutch /\ ~OwnBid(nd) /\ Received(nd) > 1 =>
    LET a == BidAuction(nd) C == Cfg(nd)
-       p == ProdOf(C, BidLocked(nd).prod)
-       pDebt == IF p.outOracle THEN PriceRec(Pre(nd), a.debtD).twa ELSE 1000000
+       pDebt == IF BidLocked(nd).cmst THEN 1000000 ELSE PriceRec(Pre(nd), a.debtD).twa
        lhs == LMulSmall(LMulSmall(a.price, Received(nd) - 1), DecOf(C, a.debtD))
        rhs == LMulBig(LMulSmall(LMulSmall(E18, Paid(nd) + 1 + a.bonusLeft), DecOf(C, a.collD)), pDebt)   \* one unit of rounding on either coin
    IN LLe(lhs, rhs)
@@ -156,17 +156,26 @@ C10StartPrice(nd) == \A a \in Range(Post(nd).auctions) :
 C10CustodyColl(nd) == \A d \in CollDenoms :
    IF IsRoot(nd) THEN Post(nd).bal.auctionsV2[d] = AuctionColl(Post(nd), d)
    ELSE Post(nd).bal.auctionsV2[d] - Pre(nd).bal.auctionsV2[d] = AuctionColl(Post(nd), d) - AuctionColl(Pre(nd), d)
+(* debt coins in auction custody = what live auctions have collected so far + penalties booked as auction-module fees *)
+DebtHeld(S) == AuctionDebtHeld(S, Debt) + S.aucfees.external + S.aucfees.limit
 C10CustodyDebt(nd) ==
-   IF IsRoot(nd) THEN Post(nd).bal.auctionsV2[Debt] = AuctionDebtHeld(Post(nd), Debt)
-   ELSE Post(nd).bal.auctionsV2[Debt] - Pre(nd).bal.auctionsV2[Debt] = AuctionDebtHeld(Post(nd), Debt) - AuctionDebtHeld(Pre(nd), Debt)
+   IF IsRoot(nd) THEN Post(nd).bal.auctionsV2[Debt] = DebtHeld(Post(nd))
+   ELSE Post(nd).bal.auctionsV2[Debt] - Pre(nd).bal.auctionsV2[Debt] = DebtHeld(Post(nd)) - DebtHeld(Pre(nd))
 Closing(nd) == BidOk(nd) /\ nd.args.v \notin AuctionIds(Post(nd))
-C10OwnerGetsRest(nd) == Closing(nd) /\ BidAuction(nd).dutch /\ ~OwnBid(nd) /\ BidLocked(nd).initiator = "vault" /\ BidLocked(nd).owner # "other" =>
+C10OwnerGetsRest(nd) == Closing(nd) /\ BidAuction(nd).dutch /\ ~OwnBid(nd) /\ BidLocked(nd).initiator \in {"vault", "external"} /\ BidLocked(nd).owner \notin {"other", "none"} =>
    LET o == BidLocked(nd).owner d == BidAuction(nd).collD IN
    Post(nd).ubal[o][d] - Pre(nd).ubal[o][d] = BidAuction(nd).collLeft - Received(nd)
 C10PenaltyRouted(nd) == Closing(nd) /\ BidAuction(nd).dutch /\ BidLocked(nd).initiator = "vault" =>
    LET l == BidLocked(nd)
        inc == IF l.ikeeper THEN FloorMul(l.fee, Cfg(nd).keeperIncentive) ELSE 0
    IN Post(nd).bal.collectorV1[Debt] - Pre(nd).bal.collectorV1[Debt] = l.fee - inc
+
+(* externally initiated auction: the initiator gets the debt (target minus penalty), the penalty (minus keeper incentive) is booked as auction-module fees *)
+C10ExternalProceeds(nd) == Closing(nd) /\ BidAuction(nd).dutch /\ BidLocked(nd).initiator = "external" /\ BidLocked(nd).ext \notin {"other", "none", U(nd)} =>
+   LET l == BidLocked(nd) IN
+   /\ Post(nd).ubal[l.ext][Debt] - Pre(nd).ubal[l.ext][Debt] = l.target - l.fee
+   /\ Post(nd).aucfees.external - Pre(nd).aucfees.external <= l.fee
+   /\ Post(nd).aucfees.external - Pre(nd).aucfees.external >= l.fee - FloorMul(l.fee, Cfg(nd).keeperIncentive)
 
 (* ------------------------------------ conformance (Sweep, VaultSpec) ------------------------------------ *)
 (* a block's vault sweep is exactly the step of spec/sweep/Sweep.tla: window from (count, offset, batch), the   *)
@@ -187,7 +196,7 @@ Formulas == <<"C01_Custody", "C01_Count", "C01_TotalsColl", "C01_TotalsMinted", 
               "C03_MinRatio", "C03_Floor", "C03_Ceiling", "C03_InactivePrice",
               "C09_OnlyUnsafe", "C09_SeizeExact", "C09_CustodyMoves", "C09_Live",
               "C10_PaidWithinTarget", "C10_ReceivedWithinSeized", "C10_PostedPrice", "C10_PriceFalls", "C10_PriceInBand",
-              "C10_StartPrice", "C10_CustodyColl", "C10_CustodyDebt", "C10_OwnerGetsRest", "C10_PenaltyRouted",
+              "C10_StartPrice", "C10_CustodyColl", "C10_CustodyDebt", "C10_OwnerGetsRest", "C10_PenaltyRouted", "C10_ExternalProceeds",
               "Conf_Vault", "Conf_Block">>
 Holds(f, i) ==
   LET nd == Nd(i) IN
@@ -220,6 +229,7 @@ Holds(f, i) ==
     [] f = "C10_CustodyDebt" -> C10CustodyDebt(nd)
     [] f = "C10_OwnerGetsRest" -> C10OwnerGetsRest(nd)
     [] f = "C10_PenaltyRouted" -> C10PenaltyRouted(nd)
+    [] f = "C10_ExternalProceeds" -> C10ExternalProceeds(nd)
     [] f = "Conf_Vault" -> ConfVault(nd)
     [] f = "Conf_Block" -> ConfBlock(nd)
 
@@ -237,6 +247,9 @@ Stats == PrintT(<<"STATS", [nodes |-> NLog,
    sweepSeizures |-> Cnt(LAMBDA nd : nd.a = "Block" /\ Seized(nd) # {}),
    okBids |-> Cnt(LAMBDA nd : BidOk(nd)),
    closingBids |-> Cnt(LAMBDA nd : Closing(nd)),
+   externalAuctions |-> Cnt(LAMBDA nd : nd.a = "LiqExt" /\ Ok(nd)),
+   externalCloses |-> Cnt(LAMBDA nd : Closing(nd) /\ BidLocked(nd).initiator = "external"),
+   bonusBids |-> Cnt(LAMBDA nd : BidOk(nd) /\ BidAuction(nd).bonusLeft > 0),
    priceChecks |-> Cnt(LAMBDA nd : BidOk(nd) /\ ~OwnBid(nd) /\ Received(nd) > 1),
    auctionBlocks |-> Cnt(LAMBDA nd : nd.a = "Block" /\ Len(Post(nd).auctions) > 0),
    blocks |-> Cnt(LAMBDA nd : nd.a = "Block"),
